@@ -6,7 +6,7 @@ class C28(vlib.Spec):
     model_vo = ["theories/Hydro/ModelFlows.vo"]
     props_vo = "theories/Props/C28.vo"
     theorems = ["C28_partition_independent_modelled_ir", "C28_final_is_denotation_modelled_ir",
-                "C28_join_delta_tickinv", "C28_generator_tickinv", "C28_holds_b_correct",
+                "C28_join_delta_tickinv", "C28_join_half_tickinv", "C28_generator_tickinv", "C28_holds_b_correct",
                 "C28_translated_terms_wf_check_sound"]
     crate, group, binary = "h_hydro", "hydro", "h_hydro"
     imports = "From HV Require Import Hydro.Model Hydro.ModelTick Hydro.ModelFlows."
@@ -26,7 +26,8 @@ class C28(vlib.Spec):
                    "top-level singletons are observed through snapshot(..).all_ticks() (identities in production)"]
     rule = ("corpus flow x input: small inputs (<= 4 items quick / <= 5 thorough) under ALL partitions into "
             "<= 3 (4) ticks, large inputs (<= 40 items, <= 12 per side for join/cross flows) under random "
-            "partitions into 1..8 ticks incl. empty ticks; + one emission-table case per flow; "
+            "partitions into 1..8 ticks incl. empty ticks; + per flow the SAME item arriving in consecutive ticks and with "
+            "empty ticks in between (replay / multiset_delta pattern); + one emission-table case per flow; "
             "non-trivial = >= 2 ticks, >= 2 items and some output")
 
     def flows(self):
@@ -45,7 +46,8 @@ class C28(vlib.Spec):
     def gen(self, rng, tier, n):
         self.translate()
         fl = self.flows()
-        return hydro.corpus_cases(self.prop) + hydro.emit_cases(fl) + hydro.gen_partition_cases(rng, tier, fl)
+        return (hydro.corpus_cases(self.prop) + hydro.emit_cases(fl) + hydro.gen_repeat_cases(rng, tier, fl)
+                + hydro.gen_partition_cases(rng, tier, fl))
 
     def n_cases(self, tier):
         return 0
